@@ -1234,6 +1234,9 @@ var c06Corpus = []c06CorpusCase{
 	// previous entries of that request left behind
 	{[]string{"mem", "p1"}, []string{"set 10 k0|i64:1||||| k0|i64:2||||| k1|str:61||||| k1|str:61|||||", "get k0 k1", "set 11 k2|i64:1||||| k2|i64:2||||| k2|i64:2|||||", "get k2 k2",
 		"set 01 k3|i64:1||||| k0|i64:7||||| k0|i64:7|||||", "gbk k0 k3 k0 k2", "arek k0 k3 k0", "del k1 k1 k3", "shift k2 k0 k2", "getall", "push k4:1 k4:2,1", "get k4", "del k4 k0", "issw"}},
+	// ShiftByKeys / Delete on records that have already been written to the file (write interval 0):
+	// the reply carries the value and the metadata the record had
+	{[]string{"p0", "mem"}, []string{"set 11 k0|str:68656c6c6f|a1000000000|u1||| k1|i64:7||||| k2|u32s:1,2|||||", "shift k0 k2", "getall", "shift k1 k0", "issw"}},
 	// fixed-width wrap-around of every integer type, and the increment conditions at their boundary
 	{[]string{"mem"}, []string{"set 11 k0|u8:255||||| k1|i8:127||||| k2|i64:9223372036854775807||||| k3|u64:18446744073709551615||||| k4|i32:-2147483648||||| k5|u16:65535|||||",
 		"inc u8 k0 1 - - -", "inc i8 k1 1 - - -", "inc i64 k2 1 - - -", "inc u64 k3 2 - - -", "inc i32 k4 -1 - - -", "inc u16 k5 2 - - -", "getall",
